@@ -8,6 +8,24 @@ ENGINES = [
 ]
 NOT_APPLICABLE = {}
 CLAIMED = {
+ "C09": {
+  "engine": "tlc + csl-conform (spec/trace/Trace_TxBuilder.tla ScriptChecks, spec/lib/LedgerRules.tla script rules, CBOR.tla; harness builder driver --plutus; hashlib digest oracle)",
+  "technique": "for every transaction built after calc_script_data_hash as last script-related call, TLC assembles the ledger's script-integrity preimage from the emitted witness set (redeemer span, datum span, language views of exactly the versions in use, encoded by the specification incl. the PlutusV1 double encoding and canonical key order) and the auxiliary-data span; Blake2b-256 is uninterpreted in TLA+, each (preimage, digest-found-in-body) pair is evaluated by hashlib; freshness of the hash is state of the trace spec",
+  "text": "Trace validation of about 900 (quick) Plutus transactions over all 7 language subsets, array/map redeemers as emitted, witness/inline/reference datums, extra and duplicated datums, plus auxiliary data hashes of the regular scenarios. The stand-alone hash_script_data / hash_auxiliary_data helpers are exercised only through the builder.",
+  "note": "Trusted: TLC, CBOR.tla, the language-views transcription in LedgerRules.tla, python hashlib.blake2b, harness logging (--selftest flips a hash byte).",
+ },
+ "C10": {
+  "engine": "tlc + csl-conform (spec/trace/Trace_TxBuilder.tla ScriptChecks, spec/lib/LedgerRules.tla script rules, CBOR.tla; harness builder driver --plutus; hashlib digest oracle)",
+  "technique": "each script use carries a redeemer whose data is a unique integer; the harness logs which item it attached it to; TLC finds the redeemer in the emitted witness set and compares (purpose, index) with the position of that item under the ledger's orderings computed from the emitted body (inputs sorted by txid/index, policies sorted, certificate sequence, withdrawals in reward-account order); pointers pairwise distinct; number of redeemers = number of script uses; attachments are state of the trace spec (replaced by later Set* calls)",
+  "text": "Trace validation of about 1500 (quick) / 12000 transactions with the additions issued in random order and outpoints spread so that sorted order differs from insertion order.",
+  "note": "Trusted: as C09. Vote redeemers: presence/purpose/distinctness only. Mixed key/script reward accounts: a pointer matching raw byte order instead of the ledger's Ord is noted, not failed.",
+ },
+ "C18": {
+  "engine": "tlc + csl-conform (spec/trace/Trace_TxBuilder.tla ScriptChecks, spec/lib/LedgerRules.tla script rules, CBOR.tla; harness builder driver --plutus; hashlib digest oracle)",
+  "technique": "for every script use TLC counts the places where the script is available in the emitted transaction (witness-set scripts mapped to hashes through a script table re-checked with hashlib; reference scripts of environment outputs that are among body[18] or spent) and demands exactly one; required datums must be present; full_size() is bracketed by the length of the transaction really signed by the recomputed signer set (signed <= full_size < signed + 101)",
+  "text": "Trace validation over the Plutus scenarios (scripts) and all builder scenarios (size bracket) with overlapping key hashes between inputs, collateral, certificates, withdrawals, votes, native-script signers and required signers.",
+  "note": "Trusted: as C09. The required signer set is recomputed by the spec from the emitted bytes; the harness signing with another set is a tool error.",
+ },
  "C19": {
   "engine": "tlc + csl-conform (spec/trace/Trace_TxBuilder.tla collateral state machine, spec/lib/LedgerRules.tla, Value.tla)",
   "technique": "the collateral fields are a state machine in the L0 trace spec (unset / set by helper / raw setter / failed helper); for every transaction built with helper-set fields TLC sums the collateral inputs from the scenario's UTxO environment and checks, on the emitted bytes, inputs = return + total as whole values, min-ADA of the return output, total*100 >= fee*pct for the percentage helper, and that a failed helper leaves neither field in the body",
